@@ -227,3 +227,63 @@ def writer_numeric_table(P):
     if len(out) < 15:
         raise AnchorLost("writer Numeric table not found in format_numeric (%d arms)" % len(out))
     return out
+
+
+# ---- FLOW.scanned: a value a scanner produced is stored through a Parsed setter (or an explicit allow-list entry) -------------
+def _core_of(y):
+    n = 0
+    while isinstance(y, tuple) and y and n < 16:
+        n += 1
+        if y[0] in ("field", "as", "deref", "ref", "cast"):
+            y = y[1]
+            continue
+        if y[0] == "call" and isinstance(y[1], str) and y[1].endswith("Try>::branch"):
+            y = y[2][0]
+            continue
+        break
+    return y
+
+
+def scanned_value_flow(P, fn, max_paths=6000):
+    """[(scanner short name, line, n_paths_ok, n_paths_dropped)] for every value-returning format::scan call site of fn: on how many
+    successful paths (the scan returned Ok, the path ends in Ok / the next loop iteration) its value reaches a Parsed setter
+    (direct Parsed::set_* call or the setter function value of the item, called with `parsed`) and on how many it is dropped"""
+    from sym import Sym, walk_terms
+    from rules import result_variant
+
+    def valued(r):
+        if not (isinstance(r, str) and r.startswith("format::scan::") and P.has(r)):
+            return False
+        rt = P.ty_s(P.fn(r)["ret"])
+        return "(&" in rt and ", ())" not in rt
+    sites = {}
+    for p in Sym(P, fn).paths(max_paths=max_paths):
+        if p.end[0] == "return":
+            if result_variant(p.ret)[0] != "Ok":
+                continue
+        elif p.end[0] != "loop":
+            continue
+        ok_calls = set()
+        for c in p.conds:
+            if c[0][0] == "switch" and isinstance(c[1], tuple) and c[1] and c[1][0] == "discr" and c[2] == 0:
+                k = _core_of(c[1][1])
+                if isinstance(k, tuple) and k and k[0] == "call":
+                    ok_calls.add(k)
+        consumed = set()
+        for c in p.calls:
+            setter = isinstance(c[1], str) and c[1].startswith("format::parsed::Parsed::set_")
+            indirect = not isinstance(c[1], str) and c[2] and c[2][0] == ("ref", ("deref", ("arg", 1)))
+            if not (setter or indirect):
+                continue
+            for a in c[2][1:]:
+                for t in walk_terms(a):
+                    if isinstance(t, tuple) and t and t[0] == "field" and t[2] == 1:
+                        k = _core_of(t[1])
+                        if isinstance(k, tuple) and k and k[0] == "call":
+                            consumed.add(k)
+        for c in p.calls:
+            if valued(c[1]) and c in ok_calls:
+                key = (c[1].split("::")[-1], c[3][1] if len(c) > 3 and isinstance(c[3], tuple) else None)
+                s = sites.setdefault(key, [0, 0])
+                s[0 if c in consumed else 1] += 1
+    return [(k[0], k[1], v[0], v[1]) for k, v in sorted(sites.items(), key=lambda kv: (kv[0][1] or 0, kv[0][0]))]
